@@ -200,9 +200,9 @@ def run(report, p):
                     has_ext = True
                 if isinstance(n, ast.Call) and norm(n.func).endswith("splitext"):
                     has_split = True
-        if not (has_int and has_ext and has_split):
-            raise AnalysisError(f"{loader.qual}: how the loader filters manifest names by extension and parses the generation number out of the name was not recognised (int(parts[0][0]) / endswith(extension) / splitext)")
-        r3.check(True, loader, loader.node, "")
+        _shape_missing = not (has_int and has_ext and has_split)
+        if not _shape_missing:
+            r3.check(True, loader, loader.node, "")
 
     # the loader's skip filter, evaluated on generated names: no manifest the tool itself names may be passed over
     if gen_helper is not None and loader is not None:
@@ -245,9 +245,21 @@ def run(report, p):
                     return None
 
                 ev = Evaluator(atom, where=loader.qual, value_boolops=False)
+                # what the loop body computes from the name before the test (e.g. stem, _, extension = filename.partition('.'))
+                env0 = {}
+                lp_ = next(lp for lp in lloops if any(x is c for st in lp.body for x in ast.walk(st)))
+                for st in lp_.body:
+                    if any(x is c for x in ast.walk(st)):
+                        break
+                    if isinstance(st, (ast.Assign, ast.AnnAssign, ast.AugAssign, ast.Expr)):
+                        try:
+                            outs = ev.run([st], env0)
+                            env0 = outs[0][0] if outs else env0
+                        except AnalysisError:
+                            pass
                 taken = True
                 for t, l in deps:
-                    v = ev.eval(t.ast, {})
+                    v = ev.eval(t.ast, env0)
                     if v is UNKNOWN:
                         raise AnalysisError(f"{loader.loc(t.ast)}: the loader's skip condition `{norm(t.ast)[:70]}` could not be evaluated for the name {nm!r}")
                     taken = taken and (bool(v) == (l == "T"))
@@ -255,6 +267,21 @@ def run(report, p):
                     bad = (nm, folder)
                     break
             r3.check(bad is None, loader, c, f"the loader passes over the manifest {bad[0]!r} (folder name {bad[1]!r}) that the tool itself writes: under `{' and '.join(norm(t.ast)[:60] for t, l in deps)}` every generation of such a folder is silently skipped, the history looks empty" if bad else "", construct="loader skip filter hits a generated manifest name")
+
+    # manifests are found by listing the folder, not by globbing a pattern that contains the folder path: `[`, `]`, `*`, `?` in a folder name are pattern syntax to glob
+    if loader is not None:
+        for lf in [loader] + [p.funcs[q] for q in p.reachable([loader.qual]) if q in p.funcs and p.funcs[q].module is loader.module and q != loader.qual]:
+            for c, tg in p.calls[lf.qual]:
+                if any(t in ("ext:glob.glob", "ext:glob.iglob") or t.endswith((".glob", ".rglob")) and t.startswith(("ext:", "unk:")) for t in tg) and c.args:
+                    r3.instance(lf, c, norm(c)[:70])
+                    variable_dir = False
+                    for o in pr.origins(c.args[0], lf):
+                        for st_ in subterms(o):
+                            if st_[0] in ("param", "attr") and not any(is_call(w, "glob.escape") and any(x is st_ for x in subterms(w)) for w in subterms(o)):
+                                variable_dir = True
+                    r3.check(not variable_dir, lf, c, f"`{norm(c)[:70]}` builds a glob pattern from the path of the history folder: a folder name containing `[`, `]`, `*` or `?` is read as pattern syntax, the manifests of such a history are not found and the history looks empty (glob.escape() the directory part, or list the folder)", construct="manifests enumerated by a glob pattern built from the folder path")
+    if gen_helper is not None and loader is not None and _shape_missing and not r3.findings:
+        raise AnalysisError(f"{loader.qual}: how the loader filters manifest names by extension and parses the generation number out of the name was not recognised (int(parts[0][0]) / endswith(extension) / splitext)")
 
     # ------------------------------------------------------------------ R6.4
     r4 = report.rule(
